@@ -192,7 +192,10 @@ def _build(d):
     ignore = []
     if ns > 1 and d.pick(3) == 0:
         ignore = [s['name'] for s in sheets[1:] if d.pick(2)]
-    return {'sheets': sheets, 'names': wbnames, 'ignore': ignore}
+    # the collection type in which the ignored sheets are handed over
+    return {'sheets': sheets, 'names': wbnames, 'ignore': ignore,
+            'igtype': d.choice(['list', 'list', 'tuple', 'set',
+                                'frozenset'])}
 
 
 def _formula(d, sheets, si, shared=False):
@@ -285,7 +288,9 @@ def judge(case):
     try:
         xlsxmin.write(fn, wb)
         model = xl.ModelCompiler().read_and_parse_archive(
-            fn, ignore_sheets=list(ignore))
+            fn, ignore_sheets={'list': list, 'tuple': tuple, 'set': set,
+                               'frozenset': frozenset}[
+                                   case.get('igtype', 'list')](ignore))
     except Exception as err:  # noqa: BLE001
         t = exc_tag(err)
         res.fail('load-exception:%s:%s' % (t[1], t[2]), 'model', t,
